@@ -153,6 +153,10 @@ func DIDFaults(sc *Scenario) []Mut {
 			p.IssuerData.ID = S(sc.Attacker.DID.String())
 			e.DID = append(e.DID, DIDAnswer{DID: sc.Attacker.DID.String(), State: st, Published: BP(true)})
 		}},
+		{"did-with-extra-query", "accept", func(p *ProofJ, e *Env) {
+			// the verifier replaces the query by state=...: the same identity
+			p.IssuerData.ID = S(did + "?service=x")
+		}},
 		{"did-malformed", "reject", func(p *ProofJ, e *Env) { p.IssuerData.ID = S("did:") }},
 		{"did-removed", "reject", func(p *ProofJ, e *Env) { p.IssuerData.ID = nil }},
 		{"resolver-error", "reject", setAns(DIDAnswer{Err: true})},
